@@ -387,6 +387,20 @@ def run_widen_only(chk, spec):
 		return
 	if not s0[1] and s1[1] and not any(x is None for x in news):
 		chk.fail("None only adds nullability (a value that is not None never does)", f"promote/nullable-without-none/vector-level/{op}", f"{how} vector {vals!r} typed {fmt(s0)}; {op} {news!r} (no None) gives {fmt(s1)}")
+		return
+	# the dtype promoted with the incoming values covers every one of them (a None and a wider value arriving in ONE write both count)
+	for x in (news[:1] if op == "lshift-scalar" else news):
+		if x is None:
+			if not s1[1]:
+				chk.fail("None adds nullability", f"promote/none-not-recorded/vector-level/{op}", f"{how} vector {vals!r} typed {fmt(s0)}; {op} {news!r} gives {fmt(s1)}")
+				return
+			continue
+		k = M.exact_kind(x)
+		k = k[1] if M.is_sub(k) else k
+		if not _le(k, s1[0]):
+			chk.fail("promoting a dtype with values never narrows it (the result covers the values it was promoted with)", f"promote/result-narrower-than-value/vector-level/{op}/{'with-none' if any(y is None for y in news) else 'no-none'}",
+				f"{how} vector {vals!r} typed {fmt(s0)}; {op} {news!r} gives {fmt(s1)}, which does not cover {x!r}")
+			return
 
 
 def run_result(chk, spec):
@@ -409,8 +423,99 @@ def run_result(chk, spec):
 				f"result-typing/{spec['op']}/{label.split('#')[0]}/exp={fmt(exp)}/got={fmt(got)}",
 				f"{spec!r}: column {label} holds {short(vals, 200)} typed {fmt(got)}, rule says {fmt(exp)}")
 
+def run_stale_result(chk, spec):
+	"""joins, aggregates and window results are typed from the VALUES they hold - not from what an operand's column once held (a None or a wider
+	value since overwritten) and not from the declared dtype of a column that has no rows left"""
+	import warnings
+	n = 4
+	ks = [1, 2, 1, 2]
+	t = Table({"k": list(ks), "v": [10, 20, 30, 40], "s": ["p", "q", "r", "s"]})
+	u = Table({"k2": [1, 2, 3], "z": [7, 8, 9], "w": ["a", "b", "c"]})
+	stale = spec["stale"]
+	with warnings.catch_warnings():
+		warnings.simplefilter("ignore")
+		for tab, cname in ((t, "k"), (t, "v"), (u, "k2"), (u, "z")):
+			col = tab[cname]
+			x0 = col._underlying[0]
+			if stale == "was-none":
+				col[0] = None
+				col[0] = x0
+			elif stale == "was-float" and cname in ("v", "z"):
+				col[0] = 2.5
+				col[0] = x0
+			elif stale == "was-complex" and cname in ("v", "z"):
+				col[0] = 1j
+				col[0] = x0
+		if spec["right"] == "emptied-by-mask":
+			u = u[[False] * len(u)]
+		elif spec["right"] == "emptied-by-slice":
+			u = u[0:0]
+		elif spec["right"] == "no-match":
+			u = u[[False, False, True]]
+		op = spec["op"]
+		o = call({
+			"window": lambda: t.window(over="k", sum_over="v", count_over="s", max_over="v"),
+			"window-vector-key": lambda: t.window(over=t["k"], sum_over="v"),
+			"aggregate": lambda: t.aggregate(over="k", sum_over="v", min_over="v", count_over="s"),
+			"join": lambda: t.join(u, "k", "k2", expect="many_to_one"),
+			"inner_join": lambda: t.inner_join(u, "k", "k2", expect="many_to_one"),
+			"full_join": lambda: t.full_join(u, "k", "k2", expect="many_to_one"),
+			"sort-aggregate": lambda: t.sort_by("v", reverse=True).aggregate(over="k", max_over="v"),
+		}[op])
+	if not o.ok:
+		chk.skip("stale-result-op-raised")
+		return
+	r = o.value
+	for j, vec in enumerate(r.cols()):
+		chk.observe(vec, f"stale-result/{op}")
+		vals = list(vec._underlying)
+		exp = M.model_infer(vals)
+		if exp is None and vals and all(x is None for x in vals):
+			# nothing but None: the statement leaves the kind to the library, but it is the SAME rule - what inference gives for these values
+			ref = call(lambda: Vector(list(vals)).schema())
+			exp = sch(ref.value) if ref.ok and ref.value is not None else None
+		if exp is None:
+			continue
+		got = sch(vec.schema())
+		chk.judged("result-typing", ("stale-result", op, stale, spec["right"], j, fmt(exp)))
+		if got != exp:
+			chk.fail("operation results are typed by the inference rule applied to their values", f"result-typing/{op}/after-{stale}/right-{spec['right']}/exp={fmt(exp)}/got={fmt(got)}",
+				f"{spec!r}: result column {j} ({vec.name!r}) holds {short(vals, 160)} typed {fmt(got)}, rule says {fmt(exp)}")
+			return
 
-RUNNERS = {"widen_only": run_widen_only, "expr": run_expr, "reject": run_reject, "dynclass": run_dynclass, "seq": run_seq, "vector": run_vector, "step": run_step, "commute": run_commute, "allnone": run_allnone, "result": run_result}
+class _NoRepr:
+	"""a value that cannot be printed"""
+	def __repr__(self):
+		raise RuntimeError("no repr")
+
+
+def run_unprintable(chk, spec):
+	"""values whose text cannot be produced (an int beyond the int-to-str digit limit, an object whose repr raises) are typed like any other value of
+	their class: same schema in every order, and inference does not raise"""
+	import itertools, warnings
+	pool_ = {"huge": 10 ** 5000, "norepr": _NoRepr(), "str": "a", "float": 1.5, "int": 1, "none": None, "date": date(2020, 1, 1)}
+	names = list(spec["names"])
+	outs = {}
+	with warnings.catch_warnings():
+		warnings.simplefilter("ignore")
+		for perm in itertools.permutations(names):
+			vals = [pool_[nm] for nm in perm]
+			a = call(infer_dtype, list(vals))
+			b = call(lambda: Vector(list(vals)).schema())
+			c = call(lambda: (Vector([vals[0]]) << list(vals[1:])).schema()) if len(vals) > 1 and vals[0] is not None else None
+			outs[perm] = tuple((sch(o.value) if o.ok else ("raise", type(o.exc).__name__)) if o is not None else None for o in (a, b, c))
+	chk.judged("seq-exhaustive", ("unprintable", tuple(sorted(names))))
+	raised = {p: o for p, o in outs.items() if any(isinstance(x, tuple) and x and x[0] == "raise" for x in o)}
+	if raised:
+		p, o = next(iter(raised.items()))
+		chk.fail("inference does not raise", f"infer/raises/unprintable-value/{'+'.join(sorted(names))}", f"values of classes {list(p)!r} in this order: infer_dtype / Vector / << gave {o!r}; other orders: {[(list(q), r) for q, r in outs.items() if q not in raised][:2]!r}")
+		return
+	firsts = {o[0] for o in outs.values()} | {o[1] for o in outs.values()}
+	if len(firsts) > 1:
+		chk.fail("all orderings of one multiset infer the same schema", "infer/order-dependent/unprintable-value", f"classes {names!r}: {[(list(q), r) for q, r in outs.items()][:4]!r}")
+
+
+RUNNERS = {"unprintable": run_unprintable, "stale_result": run_stale_result, "widen_only": run_widen_only, "expr": run_expr, "reject": run_reject, "dynclass": run_dynclass, "seq": run_seq, "vector": run_vector, "step": run_step, "commute": run_commute, "allnone": run_allnone, "result": run_result}
 
 
 # ------------------------------------------------------------------ driver
@@ -467,7 +572,13 @@ def run(chk):
 					chk.case("reject", {"values": okv[kind], "key": key, "new": [first, b]}, "reject")
 	for name in EXPRS:
 		chk.case("expr", {"name": name}, "result-typing-expr")
-	for vals, news_list in (([1, 2, 3], [[4], [4, 5], [None], [2.5]]), ([1.5, 2.5], [[3.5], [3], [None]]), (["a", "b"], [["c"], [None]]), ([True, False], [[True], [1]]), ([date(2020, 1, 1), date(2020, 1, 2)], [[date(2021, 1, 1)], [datetime(2020, 1, 1, 5)]])):
+	for names in (["huge", "str"], ["huge", "float"], ["huge", "int"], ["norepr", "int"], ["norepr", "str", "huge"], ["str", "huge", "none"], ["huge", "date"], ["norepr", "norepr", "int"], ["huge", "str", "float"]):
+		chk.case("unprintable", {"names": names}, "seq-unprintable")
+	for op in ("window", "window-vector-key", "aggregate", "join", "inner_join", "full_join", "sort-aggregate"):
+		for stale in ("none", "was-none", "was-float", "was-complex"):
+			for right in (("full", "emptied-by-mask", "emptied-by-slice", "no-match") if "join" in op else ("full",)):
+				chk.case("stale_result", {"op": op, "stale": stale, "right": right}, "result-typing-stale")
+	for vals, news_list in (([1, 2, 3], [[4], [4, 5], [None], [2.5], [2.5, None], [None, 2.5], [None, 1j]]), ([1.5, 2.5], [[3.5], [3], [None], [1j, None], [None, 1j]]), (["a", "b"], [["c"], [None]]), ([True, False], [[True], [1]]), ([date(2020, 1, 1), date(2020, 1, 2)], [[date(2021, 1, 1)], [datetime(2020, 1, 1, 5)], [datetime(2020, 1, 1, 5), None], [None, datetime(2020, 1, 1, 5)]])):
 		for how in ("plain", "to_object", "was-none", "was-float", "slice-of-nullable"):
 			if how == "was-float" and not isinstance(vals[0], int) or isinstance(vals[0], bool) and how == "was-float":
 				continue
